@@ -1,6 +1,7 @@
 #!/bin/bash
 # usage: tools/recheck_mutant.sh <seeded-name> <check ids...>   (applies the stored patch to /repo, runs the quick checks, reverts)
 set -u
+export VERIF_NO_EVIDENCE=1   # evidence files describe runs against the unchanged /repo only
 NAME=$1; shift
 OUT=/verif/seeded/$NAME
 git -C /repo status --porcelain | grep -q . && { echo "/repo not clean"; exit 1; }
